@@ -63,6 +63,11 @@ func Run(prop, tier string) int {
 			sum.Clauses["boundary_cases_that_really_opened"] = c10kOpens
 			sum.Violations = append(sum.Violations, fs...)
 		}
+		if prop == "C18" {
+			n, fs := c18kAllocationAll()
+			sum.Clauses["reward_allocation_cases(engine K: community tax x Eden / Eden Boost weight ratios x fee size)"] = n
+			sum.Violations = append(sum.Violations, fs...)
+		}
 		if prop == "C12" {
 			n, fs := c12kAll()
 			sum.Clauses["deduct_from_committed_cases(engine K product)"] = n
